@@ -624,6 +624,32 @@ func fnPkg(f *ssa.Function) *types.Package {
 	return nil
 }
 
+// closureWritesFreeVar: the function literal may store through its i-th captured
+// variable (directly, or by letting its address escape).
+func closureWritesFreeVar(fn *ssa.Function, i int) bool {
+	if fn == nil || i >= len(fn.FreeVars) {
+		return true
+	}
+	fv := fn.FreeVars[i]
+	refs := fv.Referrers()
+	if refs == nil {
+		return false
+	}
+	for _, r := range *refs {
+		switch x := r.(type) {
+		case *ssa.UnOp:
+			// load
+		case *ssa.Store:
+			if x.Addr == fv {
+				return true
+			}
+		default:
+			return true
+		}
+	}
+	return false
+}
+
 func isLockAcquire(name string) bool {
 	switch name {
 	case "(*sync.RWMutex).Lock", "(*sync.RWMutex).RLock", "(*sync.Mutex).Lock":
@@ -643,9 +669,9 @@ func (s *Sim) callEffects(st *State, ev *Event) {
 		case "alloc", "fa", "ia", "global":
 			s.havoc(st, a)
 		case "closure":
-			// the callee may run the closure
-			for _, b := range a.Args {
-				if b.Op == "alloc" {
+			// the callee may run the closure: captured variables it may write are forgotten
+			for i, b := range a.Args {
+				if b.Op == "alloc" && closureWritesFreeVar(a.Fn, i) {
 					s.havoc(st, b)
 				}
 			}
